@@ -86,3 +86,35 @@ fn c05_mcs_twin() {
     forget(r);
     assert!(false, "twin reached");
 }
+
+/// C04: MCS requests
+#[kani::proof]
+#[kani::unwind(10)]
+fn c04_mcs_requests() {
+    assert!(attach_user_request() == 0x28, "attach user request = 10 << 2");
+    let uid: u16 = kani::any();
+    let cid: u16 = kani::any();
+    kani::assume(uid >= 1001);
+    match channel_join_request(Some(uid), Some(cid)) {
+        Ok(t) => {
+            let mut w = FixedWriter::<8>::new();
+            let r = t.write(&mut w);
+            assert!(r.is_ok() && w.len == 5 && t.length() == 5, "channel join request is 5 bytes");
+            assert!(w.out[0] == 0x38, "14 << 2");
+            assert!(((w.out[1] as u16) << 8 | w.out[2] as u16) == uid - 1001, "initiator = user id - 1001, big endian");
+            assert!(((w.out[3] as u16) << 8 | w.out[4] as u16) == cid, "channel id big endian");
+            forget(r); forget(t);
+        }
+        Err(e) => { forget(e); assert!(false, "ok"); }
+    }
+    match erect_domain_request() {
+        Ok(t) => {
+            let mut w = FixedWriter::<8>::new();
+            let r = t.write(&mut w);
+            assert!(r.is_ok() && w.len == 5 && w.out[0] == 0x04 && w.out[1] == 1 && w.out[2] == 0 && w.out[3] == 1 && w.out[4] == 0, "erect domain request: 04 | PER int 0 | PER int 0");
+            forget(r); forget(t);
+        }
+        Err(e) => { forget(e); assert!(false, "ok"); }
+    }
+    kani::cover!(uid == 65535, "largest user id");
+}
